@@ -220,6 +220,6 @@ theorem decodeEntry_torn (crc : List Nat → List Nat) (hcrc : ∀ b, (crc b).le
         simp only [List.length_take, hcrc]
         simp only [List.length_cons, List.length_append, hcrc] at hm
         omega
-      simp [hlt]
+      rw [if_pos hlt]
 
 end Influx.Model.TSI
